@@ -3,6 +3,7 @@ module psaverif
 go 1.23.0
 
 require (
+	k8s.io/api v0.0.0-20241206182100-8b216f34d7ed
 	k8s.io/apimachinery v0.0.0-20241206181643-8c60292e48e4
 	k8s.io/pod-security-admission v0.0.0
 )
@@ -19,7 +20,6 @@ require (
 	golang.org/x/net v0.30.0 // indirect
 	golang.org/x/text v0.19.0 // indirect
 	gopkg.in/inf.v0 v0.9.1 // indirect
-	k8s.io/api v0.0.0-20241206182100-8b216f34d7ed // indirect
 	k8s.io/component-base v0.0.0-20241206184758-96018783480f // indirect
 	k8s.io/klog/v2 v2.130.1 // indirect
 	k8s.io/utils v0.0.0-20241104100929-3ea5e8cea738 // indirect
